@@ -580,7 +580,7 @@ def search(func, tier, seed, obligation=""):
                 srv, out = session(ws, [
                     {"jsonrpc": "2.0", "method": "textDocument/didOpen", "params": {"textDocument": {"uri": uri}}},
                     {"jsonrpc": "2.0", "method": "textDocument/didChange",
-                     "params": {"textDocument": {"uri": uri}, "contentChanges": chs}}])
+                     "params": {"textDocument": {"uri": uri}, "contentChanges": chs}}], argv=["--incremental_sync"])
                 fobj = srv.workspace.get(ws.path("t.f90")) or next(iter(srv.workspace.values()), None)
                 got = list(fobj.contents_split) if fobj is not None else None
                 if got != exp:
